@@ -2,9 +2,12 @@
 import struct, random
 
 
-def build(cls=64, big=False, machine=62, entry=0, phdrs=(), symbols=(), min_len=0, seed=1):
+def build(cls=64, big=False, machine=62, entry=0, phdrs=(), symbols=(), min_len=0, seed=1, dynsyms=None, pltrels=(), dyn_vaddr=0x7f0000000000):
     """phdrs: dicts p_type,p_flags,p_offset,p_vaddr,p_paddr,p_filesz,p_memsz,p_align.
     symbols: dicts st_name(str),st_info,st_other,st_shndx,st_value,st_size (static .symtab).
+    dynsyms: the same, written as the dynamic symbol table (entry 0 is NOT added implicitly: the list is the table);
+    pltrels: dicts r_offset,r_sym,r_type (DT_JMPREL; RELA for ELF64, REL for ELF32).  When dynsyms is not None a
+    PT_DYNAMIC and one extra PT_LOAD (covering only the dynamic tables, at dyn_vaddr) are appended to the program headers.
     Returns the file bytes (length >= min_len)."""
     e = ">" if big else "<"
     is64 = cls == 64
@@ -13,7 +16,37 @@ def build(cls=64, big=False, machine=62, entry=0, phdrs=(), symbols=(), min_len=
     shentsize = 64 if is64 else 40
     symentsize = 24 if is64 else 16
     phoff = ehsize
-    off = phoff + phentsize * len(phdrs)
+    phdrs = list(phdrs)
+    if dynsyms is not None:
+        def sympack(no, s_):
+            if is64:
+                return struct.pack(e + "IBBHQQ", no, s_["st_info"], s_["st_other"], s_["st_shndx"], s_["st_value"], s_["st_size"])
+            return struct.pack(e + "IIIBBH", no, s_["st_value"] & 0xffffffff, s_["st_size"] & 0xffffffff, s_["st_info"], s_["st_other"], s_["st_shndx"])
+        dynstr = b"\0"; dno = []
+        for s_ in dynsyms:
+            dno.append(len(dynstr)); dynstr += s_["st_name"].encode() + b"\0"
+        dsym = b"".join(sympack(no, s_) for no, s_ in zip(dno, dynsyms))
+        hsh = struct.pack(e + "II", 1, len(dynsyms)) + struct.pack(e + "I", 0) * (1 + len(dynsyms))
+        rel = b""
+        for r in pltrels:
+            if is64: rel += struct.pack(e + "QQq", r["r_offset"], (r["r_sym"] << 32) | (r["r_type"] & 0xffffffff), 0)
+            else: rel += struct.pack(e + "II", r["r_offset"] & 0xffffffff, (r["r_sym"] << 8) | (r["r_type"] & 0xff))
+        tab_off = phoff + phentsize * (len(phdrs) + 2)
+        o_str = 0; o_sym = (len(dynstr) + 7) & ~7; o_hash = o_sym + len(dsym); o_rel = (o_hash + len(hsh) + 7) & ~7; o_dyn = (o_rel + len(rel) + 7) & ~7
+        tags = [(5, dyn_vaddr + o_str), (10, len(dynstr)), (6, dyn_vaddr + o_sym), (11, symentsize), (4, dyn_vaddr + o_hash)]
+        if pltrels:
+            tags += [(23, dyn_vaddr + o_rel), (2, len(rel)), (20, 7 if is64 else 17)]
+        tags.append((0, 0))
+        dyn = b"".join(struct.pack(e + ("qQ" if is64 else "iI"), t, v) for t, v in tags)
+        tables = bytearray(o_dyn + len(dyn))
+        tables[o_str:o_str + len(dynstr)] = dynstr; tables[o_sym:o_sym + len(dsym)] = dsym
+        tables[o_hash:o_hash + len(hsh)] = hsh; tables[o_rel:o_rel + len(rel)] = rel; tables[o_dyn:] = dyn
+        phdrs.append(dict(p_type=1, p_flags=4, p_offset=tab_off, p_vaddr=dyn_vaddr, p_paddr=dyn_vaddr, p_filesz=len(tables), p_memsz=len(tables), p_align=8))
+        phdrs.append(dict(p_type=2, p_flags=4, p_offset=tab_off + o_dyn, p_vaddr=dyn_vaddr + o_dyn, p_paddr=dyn_vaddr + o_dyn, p_filesz=len(dyn), p_memsz=len(dyn), p_align=8))
+        dyn_tables = bytes(tables)
+    else:
+        dyn_tables = b""
+    off = phoff + phentsize * len(phdrs) + len(dyn_tables)
     # string table
     strtab = b"\0"
     name_off = []
@@ -44,7 +77,7 @@ def build(cls=64, big=False, machine=62, entry=0, phdrs=(), symbols=(), min_len=
             ph += struct.pack(e + "IIQQQQQQ", p["p_type"], p["p_flags"], p["p_offset"], p["p_vaddr"], p["p_paddr"], p["p_filesz"], p["p_memsz"], p["p_align"])
         else:
             ph += struct.pack(e + "IIIIIIII", p["p_type"], p["p_offset"] & 0xffffffff, p["p_vaddr"] & 0xffffffff, p["p_paddr"] & 0xffffffff, p["p_filesz"] & 0xffffffff, p["p_memsz"] & 0xffffffff, p["p_flags"], p["p_align"] & 0xffffffff)
-    data = hdr + ph + symtab + strtab + shstr
+    data = hdr + ph + dyn_tables + symtab + strtab + shstr
     data += bytes(rnd.randrange(1, 256) for _ in range(shoff - len(data)))
 
     def sh(name, typ, flags, addr, offset, size, link, info, align, entsize):
